@@ -1,6 +1,7 @@
 package sim
 
 import (
+	"math"
 	"encoding/json"
 	"fmt"
 	"strings"
@@ -9,6 +10,7 @@ import (
 	"github.com/trustbloc/sidetree-go/pkg/api/protocol"
 	"github.com/trustbloc/sidetree-go/pkg/commitment"
 
+	"verif/sim/core"
 	"verif/sim/ref"
 )
 
@@ -180,6 +182,25 @@ func (o *Observer) feed(op *operation.AnchoredOperation, opID int, refold bool) 
 	}
 
 	prev := f.rm
+	if re := core.NewRNG(w.Plan.Seed).Stream(fmt.Sprintf("envelope/%d", opID)); !refold && re.Chance(1, 4) {
+		// the envelope of an anchored operation repeats things the request itself says (suffix, anchor origin); whoever filled it
+		// in may have left them empty or got them from elsewhere - the outcome is a function of the request, the anchoring
+		// time / number / version / references and the previous state
+		env := *op
+		env.EquivalentReferences = append([]string(nil), op.EquivalentReferences...)
+		switch re.Intn(4) {
+		case 0:
+			env.UniqueSuffix = ""
+		case 1:
+			env.AnchorOrigin = "origin-from-envelope"
+		case 2:
+			env.AnchorOrigin = nil
+		default:
+			env.UniqueSuffix, env.AnchorOrigin = "", []interface{}{"envelope"}
+		}
+		op = &env
+		w.T.Probe("envelope_fields_varied")
+	}
 	var before, opBefore string
 	if w.CheckInputs {
 		before = snapshotRM(prev)
@@ -204,6 +225,22 @@ func (o *Observer) feed(op *operation.AnchoredOperation, opID int, refold bool) 
 
 	if w.CheckFold && !refold {
 		o.compare(exp, next, err, f)
+	}
+	if tr := &exp.Rec.Built.Truth; w.Plan.Swarm.FarFuture && w.CheckFold && !refold && !w.Plan.Swarm.ChainMode && op.Type != operation.TypeCreate && exp.Prev != nil &&
+		(tr.From != 0 || tr.Until != 0) {
+		// the same operation, same previous state, anchored at times at and beyond the end of the int64 range (the anchoring time is
+		// an unsigned 64-bit number): the window verdict is a comparison of integers, not of their int64 casts
+		for _, at := range []uint64{1<<63 - 1, 1 << 63, 1<<63 + exp.Rec.Meta.Time, math.MaxUint64} {
+			env := *op
+			env.TransactionTime = at
+			meta := exp.Rec.Meta
+			meta.Time = at
+			want, verdict, why := ref.Step(w.RefCfg, exp.Prev, tr, &meta)
+			got, gerr := w.Applier.Apply(&env, prev)
+			w.T.Count("window_points_checked", 1)
+			w.T.Probe("window_anchoring_time_beyond_int64")
+			o.compare(&Expectation{Rec: exp.Rec, Verdict: verdict, Why: fmt.Sprintf("%s, anchored at t=%d", why, at), State: want, Tag: "far-future"}, got, gerr, f)
+		}
 	}
 	if n := w.Plan.Swarm.Soak; n > 0 && !refold && op.Type != operation.TypeCreate {
 		// soak: the same operation against the same previous state through the same applier, over and over - the outcome is a
@@ -287,6 +324,9 @@ func (o *Observer) compare(exp *Expectation, got *protocol.ResolutionModel, err 
 	w := o.w
 	tr := &exp.Rec.Built.Truth
 	wit := fmt.Sprintf("%s:%s:%s", tr.AnchoredKind, faultName(tr.Fault), exp.Verdict)
+	if exp.Tag != "" {
+		wit += ":" + exp.Tag
+	}
 	w.T.Count("fold_steps_checked", 1)
 	if exp.Verdict == ref.Refused {
 		if err == nil {
